@@ -80,6 +80,21 @@ func (hs *headerSession) honestRun(t *chaingen.Node, n int) []*chaingen.Node {
 	return out
 }
 
+// nextCheckpointAbove returns the height of the first checkpoint above t that
+// lies on the planned trunk continuation of t (0 if none or t is off the trunk).
+func (hs *headerSession) nextCheckpointAbove(t *chaingen.Node) int32 {
+	for _, c := range hs.s.G.P.Checkpoints {
+		if c.Height > t.Height {
+			// t must be an ancestor of the checkpoint block.
+			if n := hs.s.G.Lookup(*c.Hash); n != nil && n.Ancestor(t.Height) == t {
+				return c.Height
+			}
+			return 0
+		}
+	}
+	return 0
+}
+
 func (hs *headerSession) randPace() chaingen.Pace {
 	return chaingen.Pace(hs.s.Rng.Intn(4))
 }
@@ -258,6 +273,28 @@ func (hs *headerSession) step(t *chaingen.Node) error {
 		}
 	}
 	hs.lastBad = nil
+
+	// A failed store write on a batch that ends on (or crosses) the next
+	// checkpoint, followed by a peer whose chain misses that checkpoint: the
+	// checkpoint must still be enforced.
+	if cp := hs.nextCheckpointAbove(t); cp > 0 && r.Intn(12) == 0 {
+		run := hs.honestRun(t, int(cp-t.Height)+[]int{0, 0, 1, 3}[r.Intn(4)])
+		s.FailNextWrite()
+		if err := hs.send("ext-writefail", pi, run); err != nil {
+			return err
+		}
+		t2 := s.TipNode()
+		if t2 == nil {
+			return fmt.Errorf("tip unknown")
+		}
+		if cp2 := hs.nextCheckpointAbove(t2); cp2 > 0 && r.Intn(3) != 0 {
+			// off the trunk from the stored tip, across the checkpoint height
+			miss := g.Extend(t2, int(cp2-t2.Height)+1+r.Intn(3), hs.randPace())
+			hs.sideTips = append(hs.sideTips, miss[len(miss)-1])
+			return hs.send("ext-bad-checkpoint", hs.livePeer(), miss)
+		}
+		return nil
+	}
 
 	k := r.Intn(100)
 	switch {
